@@ -316,7 +316,6 @@ func extMutexUnlock(fr *frame, a []value) value {
 	}
 	m.locked = false
 	fr.i.sched.notify(p)
-	fr.i.sched.yield(fr)
 	return nil
 }
 
@@ -352,7 +351,6 @@ func extRWUnlock(fr *frame, a []value) value {
 	}
 	m.locked = false
 	fr.i.sched.notify(p)
-	fr.i.sched.yield(fr)
 	return nil
 }
 
@@ -376,7 +374,6 @@ func extRWRUnlock(fr *frame, a []value) value {
 	}
 	m.readers--
 	fr.i.sched.notify(p)
-	fr.i.sched.yield(fr)
 	return nil
 }
 
@@ -460,7 +457,6 @@ func extCondSignal(fr *frame, a []value) value {
 		w.signaled = true
 		fr.i.sched.notify(w)
 	}
-	fr.i.sched.yield(fr)
 	return nil
 }
 
@@ -472,7 +468,6 @@ func extCondBroadcast(fr *frame, a []value) value {
 		fr.i.sched.notify(w)
 	}
 	c.waiters = nil
-	fr.i.sched.yield(fr)
 	return nil
 }
 
@@ -495,7 +490,6 @@ func extWGAdd(fr *frame, a []value) value {
 	if w.n == 0 {
 		fr.i.sched.notify(p)
 	}
-	fr.i.sched.yield(fr)
 	return nil
 }
 
